@@ -10,7 +10,7 @@ def tok(o):
 def cop(o):
     n, a = o
     return {"send": "MoSend %d" % (a[0] if a else 0), "poll": "MoPoll %d" % (a[0] if a else 0), "drive": "MoDrive %d" % (a[0] if a else 0),
-            "count": "MoCount", "create": "MoCreate", "drop": "MoDrop %d" % (a[0] if a else 0)}[n]
+            "count": "MoCount", "creates": "MoCreateS", "drops": "MoDropS %d" % (a[0] if a else 0), "create": "MoCreate", "drop": "MoDrop %d" % (a[0] if a else 0)}[n]
 
 def mk_case(chan, N, M, k, progs, sched, meta=None):
     line = "multi chan=%s N=%d M=%d k=%d ; " % (chan, N, M, k) + " ; ".join(" ".join(tok(o) for o in p) for p in progs) + " ; S " + " ".join(map(str, sched))
@@ -116,44 +116,54 @@ def final_info(recs):
     return quiet, drained, bad
 
 def oracle_history(case, recs):
-    """C10 on a sequential history: a stream yields only events accepted during its lifetime, in order, at most once"""
+    """C10 on a sequential history: a stream yields exactly the events accepted during its lifetime, in order, at most once.
+    The one known deviation (F8) is pinned down exactly: `left[i]` holds what earlier owners of id i left unconsumed, in order;
+    only a delivery of the head of that list to a later owner is in the known class - anything else is unclassified."""
     hits = []
-    prog = case.meta["progs"][0]
-    alive = {}; k = 0; M = case.meta["M"]
-    created_at = {}; order = []
+    F8 = "C10.stale_events_on_recycled_id"
+    prog = case.meta["progs"][0]; M = case.meta["M"]
+    live = set(range(case.meta.get("k", 0))); life = {i: [] for i in live}; left = {}
     rets = [r for r in recs if r[0] == "ret"]
     for (n, a), r in zip(prog, rets):
-        if n == "create":
-            if r[2] == 17: alive[r[3]] = []; created_at[r[3]] = len(order)
-            elif len(alive) < M: hits.append((None, "create refused although only %d of %d streams are alive" % (len(alive), M)))
+        if n in ("create", "creates"):
+            if r[2] == 17:
+                if r[3] in live: hits.append((None, "create handed out id %d which is alive" % r[3]))
+                live.add(r[3]); life[r[3]] = []
+            elif len(live) < M: hits.append((None, "create refused although only %d of %d streams are alive" % (len(live), M)))
         elif n == "send":
-            if r[2] == 10: order.append(a[0]); [alive[i].append(a[0]) for i in alive]
+            if r[2] == 10:
+                for i in live: life[i].append(a[0])
         elif n == "poll":
             i = a[0]
             if r[2] == 12:
-                if i not in alive: hits.append((None, "dead stream %d yielded %d" % (i, r[3]))); continue
-                if not alive[i] or alive[i][0] != r[3]:
-                    stale = r[3] in order[:created_at.get(i, 0)]
-                    hits.append(("C10.stale_events_on_recycled_id" if stale else None,
-                                 "stream %d yielded %d but the next event of its lifetime is %s%s" % (i, r[3], alive[i][:1], " (sent before the stream was created: left over by the previous owner of the id)" if stale else "")))
-                    if r[3] in alive[i]: alive[i].remove(r[3])
-                else: alive[i].pop(0)
-            elif r[2] == 13 and i in alive and alive[i]:
-                hits.append((None, "stream %d answered Pending although %s were sent during its lifetime and not yet yielded" % (i, alive[i])))
-        elif n == "drop":
-            if r[2] == 18: alive.pop(a[0], None)
+                v = r[3]
+                if i not in live: hits.append((None, "dead stream %d yielded %d" % (i, v))); continue
+                if left.get(i) and left[i][0] == v:
+                    left[i].pop(0)
+                    hits.append((F8, "stream %d yielded %d, left unconsumed by an earlier owner of the id (sent before the stream was created)" % (i, v)))
+                elif not left.get(i) and life[i] and life[i][0] == v: life[i].pop(0)
+                else:
+                    hits.append((None, "stream %d yielded %d but the next event of its lifetime is %s (leftovers of earlier owners of the id: %s)" % (i, v, life[i][:1], left.get(i, []))))
+                    if v in life[i]: life[i].remove(v)
+            elif r[2] == 13 and i in live and (life[i] or left.get(i)):
+                hits.append((None, "stream %d answered Pending although %s are queued for it" % (i, left.get(i, []) + life[i])))
+        elif n in ("drop", "drops"):
+            if r[2] == 18:
+                i = a[0]; left[i] = left.get(i, []) + life.get(i, []); life[i] = []; live.discard(i)
         elif n == "count":
-            if r[3] != len(alive): hits.append((None, "running_streams_count() = %d with %d live streams" % (r[3], len(alive))))
+            if r[3] != len(live): hits.append((None, "running_streams_count() = %d with %d live streams" % (r[3], len(live))))
     for r in recs:
         if r[0] == "panic": hits.append((None, "panic in thread %d" % r[1]))
     # at the end: what each live stream still yields must be exactly the rest of its lifetime's events
     fin = final_info(recs)
     if fin is not None and fin[0]:
         for i, vs in fin[1].items():
-            if i in alive and vs != alive[i]:
-                stale = any(v in order[:created_at.get(i, 0)] for v in vs)
-                hits.append(("C10.stale_events_on_recycled_id" if stale and [v for v in vs if v not in order[:created_at.get(i, 0)]] == alive[i] else None,
-                             "stream %d still holds %s but the unconsumed events of its lifetime are %s" % (i, vs, alive[i])))
+            if i not in live: hits.append((None, "dead stream %d is reported alive at the end" % i)); continue
+            if vs == life[i]: continue
+            if left.get(i) and vs == left[i] + life[i]:
+                hits.append((F8, "stream %d still holds %s, left unconsumed by an earlier owner of the id, before its own %s" % (i, left[i], life[i])))
+            else:
+                hits.append((None, "stream %d still holds %s but the unconsumed events of its lifetime are %s (leftovers of earlier owners: %s)" % (i, vs, life[i], left.get(i, []))))
     return hits
 
 def nontrivial_fixed(case, recs):
